@@ -81,4 +81,8 @@ save('F-C03-11_change_meta_twice', 'F-C03-11',
      [meta('Tag', 'index_together', [['b', 'd']]), meta('Tag', 'index_together', [])])
 save('F-C03-12_add_rename_db_column', 'F-C03-12', proj(('pa', M('BookStore', [F('b', 'Integer')]))),
      [add('BookStore', F('g', 'Boolean', db_column='col_g'), False), ren('BookStore', 'g', 'd')])
+save('F-C03-13_delete_name_reuse', 'F-C03-13', proj(('pa', alpha())),
+     [{'kind': 'DeleteField', 'app': 'pa', 'model': 'Alpha', 'name': 'a'},
+      add('Alpha', F('a', 'Char', max_length=10), 'n'),
+      {'kind': 'DeleteField', 'app': 'pa', 'model': 'Alpha', 'name': 'a'}], rows)
 print(len(os.listdir(OUT)))
